@@ -15,6 +15,7 @@ fn knobs(tables: bool) -> Knobs {
     let mut k = Knobs::all().no_css().unique();
     k.href_digits = true;
     k.digits = false;
+    k.uspace = true;
     if !tables {
         k = k.no_tables();
     }
